@@ -33,6 +33,10 @@ fn chain_case(rng: &mut Rng, rec: &mut Rec) {
     }
     if needs_body(method) && rng.chance(2, 3) {
         cfg.orig.push(("content-length".into(), b"1234".to_vec()));
+    } else if needs_body(method) && rng.chance(1, 2) {
+        // the other way to frame the original body; it is not the redirected request's framing either
+        cfg.orig.push(("transfer-encoding".into(), b"chunked".to_vec()));
+        rec.cov("original/chunked");
     }
     if !needs_body(method) && rng.chance(1, 4) {
         // a body forced onto a body-less method: its Content-Length is just as stale after a redirect,
